@@ -1,0 +1,147 @@
+//go:build verif
+
+/*
+Copyright 2025 The Volcano Authors.
+
+Licensed under the Apache License, Version 2.0 (the "License");
+you may not use this file except in compliance with the License.
+You may obtain a copy of the License at
+
+    http://www.apache.org/licenses/LICENSE-2.0
+
+Unless required by applicable law or agreed to in writing, software
+distributed under the License is distributed on an "AS IS" BASIS,
+WITHOUT WARRANTIES OR CONDITIONS OF ANY KIND, either express or implied.
+See the License for the specific language governing permissions and
+limitations under the License.
+*/
+
+// Verification hook: only adds exported wrappers around the unexported
+// schedule helpers and a constructor wired like setupTestController of the
+// package's own tests, with injectable clock and job / cronjob clients.
+// Compiled only with the build tag `verif`.
+package cronjob
+
+import (
+	"fmt"
+	"time"
+
+	"github.com/robfig/cron/v3"
+	"k8s.io/apimachinery/pkg/runtime"
+	kubeclient "k8s.io/client-go/kubernetes/fake"
+	"k8s.io/client-go/tools/cache"
+
+	batchv1 "volcano.sh/apis/pkg/apis/batch/v1alpha1"
+	volcanoclient "volcano.sh/apis/pkg/client/clientset/versioned/fake"
+	informerfactory "volcano.sh/apis/pkg/client/informers/externalversions"
+
+	"volcano.sh/volcano/pkg/controllers/framework"
+)
+
+// VerifJobClient / VerifCronJobClient name the unexported injection
+// interfaces so that an external fake can be plugged in.
+type VerifJobClient = jobClientInterface
+type VerifCronJobClient = cronjobClientInterface
+
+// VerifRecorder is a record.EventRecorder that keeps only the reasons.
+type VerifRecorder struct{ Reasons []string }
+
+func (r *VerifRecorder) Event(object runtime.Object, eventtype, reason, message string) {
+	r.Reasons = append(r.Reasons, reason)
+}
+
+func (r *VerifRecorder) Eventf(object runtime.Object, eventtype, reason, messageFmt string, args ...interface{}) {
+	_ = fmt.Sprintf(messageFmt, args...)
+	r.Reasons = append(r.Reasons, reason)
+}
+
+func (r *VerifRecorder) AnnotatedEventf(object runtime.Object, annotations map[string]string, eventtype, reason, messageFmt string, args ...interface{}) {
+	r.Reasons = append(r.Reasons, reason)
+}
+
+// VerifController gives access to an initialized cronjobcontroller.
+type VerifController struct {
+	cc       *cronjobcontroller
+	Recorder *VerifRecorder
+}
+
+// NewVerifController initializes the controller with fake clientsets, the
+// given job / cronjob clients and clock.
+func NewVerifController(jobClient VerifJobClient, cronjobClient VerifCronJobClient, now func() time.Time) *VerifController {
+	vcClientSet := volcanoclient.NewSimpleClientset()
+	cc := &cronjobcontroller{}
+	opt := &framework.ControllerOption{
+		VolcanoClient:           vcClientSet,
+		KubeClient:              kubeclient.NewSimpleClientset(),
+		VCSharedInformerFactory: informerfactory.NewSharedInformerFactory(vcClientSet, 0),
+		WorkerNum:               3,
+	}
+	if err := cc.Initialize(opt); err != nil {
+		panic(err)
+	}
+	rec := &VerifRecorder{}
+	cc.recorder = rec
+	cc.jobClient = jobClient
+	cc.cronjobClient = cronjobClient
+	cc.now = now
+	return &VerifController{cc: cc, Recorder: rec}
+}
+
+func (v *VerifController) SetNow(now func() time.Time) { v.cc.now = now }
+
+// JobIndexer is the store behind cc.jobLister.
+func (v *VerifController) JobIndexer() cache.Indexer { return v.cc.jobInformer.Informer().GetIndexer() }
+
+// CronJobIndexer is the store behind cc.cronJobList.
+func (v *VerifController) CronJobIndexer() cache.Indexer {
+	return v.cc.cronJobInformer.Informer().GetIndexer()
+}
+
+func (v *VerifController) SyncCronJob(cronJob *batchv1.CronJob, jobsByCronJob []*batchv1.Job) (*time.Duration, bool, error) {
+	return v.cc.syncCronJob(cronJob, jobsByCronJob)
+}
+
+func (v *VerifController) GetJobsByCronJob(cronJob *batchv1.CronJob) ([]*batchv1.Job, error) {
+	return v.cc.getJobsByCronJob(cronJob)
+}
+
+func (v *VerifController) ProcessFinishedJobs(cronJob *batchv1.CronJob, jobsByCronJob []*batchv1.Job) bool {
+	return v.cc.processFinishedJobs(cronJob, jobsByCronJob)
+}
+
+func (v *VerifController) ProcessCtlJobAndActiveJob(cronJob *batchv1.CronJob, jobsByCronJob []*batchv1.Job) (bool, error) {
+	return v.cc.processCtlJobAndActiveJob(cronJob, jobsByCronJob)
+}
+
+func (v *VerifController) ProcessConcurrencyPolicy(cj *batchv1.CronJob) (bool, bool, error) {
+	return v.cc.processConcurrencyPolicy(cj)
+}
+
+func (v *VerifController) ValidateTZandSchedule(cj *batchv1.CronJob) (cron.Schedule, error) {
+	return v.cc.validateTZandSchedule(cj, v.cc.recorder)
+}
+
+// VerifMostRecentScheduleTime returns the missed-schedules class as an int
+// (0 none, 1 few, 2 many).
+func VerifMostRecentScheduleTime(cj *batchv1.CronJob, now time.Time, schedule cron.Schedule, includeStartingDeadlineSeconds bool) (time.Time, *time.Time, int, error) {
+	e, t, m, err := mostRecentScheduleTime(cj, now, schedule, includeStartingDeadlineSeconds)
+	return e, t, int(m), err
+}
+
+func VerifNextScheduleTime(cj *batchv1.CronJob, now time.Time, schedule cron.Schedule, rec *VerifRecorder) (*time.Time, error) {
+	return nextScheduleTime(cj, now, schedule, rec)
+}
+
+func VerifNextScheduleTimeDuration(cj *batchv1.CronJob, now time.Time, schedule cron.Schedule) *time.Duration {
+	return nextScheduleTimeDuration(cj, now, schedule)
+}
+
+func VerifGetJobName(cj *batchv1.CronJob, scheduleTime time.Time) string {
+	return getJobName(cj, scheduleTime)
+}
+
+func VerifGetJobFromTemplate(cj *batchv1.CronJob, scheduledTime time.Time) (*batchv1.Job, error) {
+	return getJobFromTemplate(cj, scheduledTime)
+}
+
+func VerifIsJobFinished(job *batchv1.Job) (bool, batchv1.JobPhase) { return isJobFinished(job) }
